@@ -26,6 +26,7 @@ REGISTRY = {
     "C07": ("auverif.props.c07", "run"),
     "C10": ("auverif.props.c10", "run"),
     "C09": ("auverif.props.c09", "run"),
+    "C11": ("auverif.props.c11", "run"),
 }
 
 
